@@ -75,7 +75,7 @@ def quaternions():
         F('qdotb', [q, w], lambda q, w: bq.dotb(q, w), 'base.quaternions.dotb'),
         F('qangle', [q, p], lambda q, p: bq.angle(q, p), 'base.quaternions.angle'),
     ]
-    for n in range(-4, 5):
+    for n in range(-6, 7):
         nm = f"qpow_{'m' if n < 0 else ''}{abs(n)}"
         L.append(F(nm, [q], (lambda n: lambda q: bq.qpow(q, n))(n), f'base.qpow(q, {n})'))
     return L
